@@ -24,6 +24,12 @@ CHECKS["C09"] = dict(text="Layer A: the real _calc_overlapping_labels, _get_pair
 CHECKS["C04"] = dict(text="Layer A: the real map_instance_labels/_map_labels (np.arange with symbolic length as a lazily indexed array with in-bounds decisions), InstanceLabelMap and MatchedInstancePair construction run for every label map over <= 3 predictions x <= 2 references with free label values per dtype; reference unchanged, foreground unchanged, partition preserved, matched label carried, fresh labels distinct from every reference label are QF_NIA obligations.",
              note="one voxel per label; > 3 unmatched predictions outside the symbolic run (overflow is reachable with one); labels >= 2^24 outside the claim",
              ref="DESIGN.md section 4 / C04")
+CHECKS["C08"] = dict(text="The real handler classes, _handle_zero_instances_cases, the early exits of panoptic_evaluate for all three input types and PanopticaResult run with a lazily symbolic handler configuration (each (metric, scenario) result and the empty-list value is forked over its five members only when the code reads it) and, for directly constructed results, unbounded symbolic instance counts; 'sq_<m> is identically the value configured for the scenario defined by the statement' is checked on every path.",
+             note="one metric's configuration is symbolic per case (others fixed) to avoid the 5^20 product; pipeline inputs are concrete representatives of each scenario; CC back ends are contract stubs",
+             ref="DESIGN.md section 4 / C08")
+CHECKS["C13"] = dict(text="PanopticaResult's binarisation and _calc_global_bin_metric run on fully symbolic small label maps (every voxel a solver variable, also over the whole dtype range) with a lazily symbolic handler; the reported global_bin_<m> is compared by SMT query with the metric of the two foregrounds built from the voxel variables, and with the configured empty-prediction / empty-reference / no-instances value when a side is empty.",
+             note="float64 as exact rationals; array size bound; ASSD/clDice global metrics only in the thorough tier / not at all (skeleton stub)",
+             ref="DESIGN.md section 4 / C13")
 NA = {}
 m = {"version": 1, "setup_cmd": "./bootstrap.sh",
      "hooks": {"guard": "PANOPTICA_VERIF", "enable": "no hooks in /repo: checks re-import /repo/panoptica from the working tree into a private twin with model modules substituted at import time (pv/twin.py)",
